@@ -8,7 +8,10 @@ from harness import nswire
 from harness.common import rat, wl, unrat, corpus_cases
 
 PID = 'C02'
-MODULES = ['NoteSeqVerif.Props.C02']
+FLT_PROOFS = 'NoteSeqVerif.Proofs.C02Float'
+FLT = 'NoteSeqVerif.Props.C02_float'
+# plain names are audited against the LAST module, the float theorems are (module, name) tuples
+MODULES = [FLT_PROOFS, FLT, 'NoteSeqVerif.Props.C02']
 EXE = 'drv_c02'
 THEOREMS = [
     # the single-pass loop = closed form (one generic theorem, used by every container)
@@ -34,7 +37,28 @@ THEOREMS = [
     'NSV.C02.hop_times_exact', 'NSV.C02.split_silence_times', 'NSV.C02.split_time_change_times',
     # trim
     'NSV.C02.trim_spec', 'NSV.C02.trim_errors',
-]
+] + [(FLT, 'NSV.C02.' + n) for n in (
+    # for every `Rounding R` (hence rne53): order facts of shifted times, notes / beats / state events of a
+    # float piece, state in effect at corresponding instants (generic, four kinds, pedal), which instants
+    # correspond, the unconditional rounded-instant form
+    'shift_order_float', 'round_sign_float', 'shift_close_float',
+    'clipR_order_float', 'clipR_mono_float', 'extract_notes_float', 'extract_beats_float',
+    'extract_state_times_float',
+    'corresponding_instants_float', 'extract_state_in_effect_float',
+    'extract_timeSigs_in_effect_float', 'extract_keySigs_in_effect_float',
+    'extract_tempos_in_effect_float', 'extract_chords_in_effect_float', 'extract_pedal_in_effect_float',
+    'extract_state_in_effect_rounded_float',
+    # float hop sizes: loop = filter over the float candidates, what the candidates are, never raises
+    'split_hop_times_of_mono', 'split_hop_times_float', 'split_hop_times_rne53', 'hop_times_float',
+    'hop_candidates_float', 'split_hop_ok_float',
+    # what is false in float64 (kernel-evaluated instance of the rne53 model)
+    'in_effect_exact_instant_fails_rne53',
+)] + [(FLT_PROOFS, 'NSV.C02.' + n) for n in (
+    'hopTimesR_sorted', 'hopCand_strict', 'hopCand_lt_total', 'hopCand_lt_total_near', 'splitWith_ok',
+    'specStateS_last_R', 'specPedals_in_effect_R', 'corr_exists',
+    # float64 counterexamples: strict order of shifted times / of hop candidates, last candidate vs total
+    'shift_collapse_rne53', 'hop_not_strict_rne53', 'hop_last_eq_total_rne53', 'hop_last_gt_total_rne53',
+)]
 
 CH, BEAT = 1, 2
 
